@@ -2,7 +2,7 @@
 // VF-VARIANT: san
 // VF-VARIANT_THOROUGH: opt
 // VF-RULE: E2: every n-by-n integer matrix over a stated alphabet (mixed-radix index, simplest first: index 0 is the zero matrix), every symmetric integer matrix over {-1,0,1} (upper triangle enumerated), and completely enumerated exact constructions up to n=12: companion matrices of every multiset (size<=6) of roots from {-2,-1,1,2,1+-i,+-2i,-1+-2i} and their transposes, direct sums of rotation blocks / Jordan blocks / scalars conjugated by every permutation (n<=5) or a fixed permutation set and by unimodular integer shears, power-of-two gradings D.A.D^-1 spanning 2^-20..2^20, full Jordan blocks, zero and identity; each constructor call runs under a per-case alarm (a constructor that never returns is a violation with the matrix as witness). exp/pow are enumerated over all symmetric members (n<=4) and the constructed real-distinct-spectrum members in all 3x3 storage-class pairs. A case is non-trivial when the matrix is not diagonal.
-// VF-BOUND: lattices n=2 [-3,3], n=3 {-1,0,1} (thorough {-1,0,1,2}), n=4 {0,1} (thorough {-1,0,1}); symmetric n<=4 (thorough n<=5) over {-1,0,1}; n=5..12 only through the enumerated constructions; "random dense" replaced by the exhaustive lattices; gradings use powers of two (2^-20..2^20 ~ 1e-6..1e6) so that trace, determinant and spectrum stay exact
+// VF-BOUND: lattices n=2 [-3,3], n=3 {-1,0,1} (thorough [-2,2]), n=4 {0,1} (thorough adds the 3^13 sub-lattice of {-1,0,1}^16 with a11=a12=a13=0); symmetric n<=4 (thorough n<=5) over {-1,0,1}; n=5..12 only through the enumerated constructions; "random dense" replaced by the exhaustive lattices; gradings use powers of two (2^-20..2^20 ~ 1e-6..1e6) so that trace, determinant and spectrum stay exact
 // VF-LEVEL: bounded-exhaustive check of the real EigenValue / MatrixTools::exp / MatrixTools::pow(A,double) against exact integer references (trace, Bareiss determinant in __int128, exact integer powers, long-double power series); residual judged by the norm-wise backward-error shape 64.n.eps.|A|.|V| of Householder/QR eigen-solvers, all consequences (trace, determinant, exp, pow) derived from that single constant
 // VF-ASSUME: IEEE-754 binary64 in the library, 80-bit long double in the harness;; "small multiple of machine epsilon" of the statement is read as p(n)=64n with eps=2^-52 (LAPACK's acceptance threshold for the same ratio is 20..30, without the factor n), i.e. tred2/tql2 and orthes/hqr2 are required to be norm-wise backward stable with |E|_max <= 64.n.eps.|A|_inf;; perturbation bounds |det(A+E)-det(A)| <= perm(|A|+|E|)-perm(|A|), |e^(A+E)-e^A| <= |E|e^(|A|+|E|);; g++ __int128;; the engine's fork/alarm supervisor (a hang is confirmed by re-running the case alone with 10x the budget)
 // VF-TECHNIQUE: exhaustive enumeration + exact reference + backward-error bounds + per-case alarm
@@ -14,9 +14,6 @@
 #include <cmath>
 #include <functional>
 #include <algorithm>
-#include <sys/time.h>
-#include <signal.h>
-#include <unistd.h>
 using namespace bpp;
 using vf::str;
 
@@ -28,32 +25,6 @@ static const LD EPS = ldexpl(1.0L, -52);  // machine epsilon of double
 static const LD UL = ldexpl(1.0L, -64);   // unit round-off of the harness' long double
 static LD gamL(int k) { return k * UL / (1 - k * UL); }
 static const LD CRES = 64;                // the "small multiple": p(n) = CRES * n
-
-// ---------- per-call alarm in CPU time ----------
-// The engine arms a wall-clock alarm (ITIMER_REAL) of caseTimeout seconds before every case (x10 when a suspected hang is re-run alone,
-// x20 in a replay). On a shared, loaded machine a wall-clock alarm of a few hundredths of a second misfires on microsecond cases (a
-// pre-empted worker easily waits that long), and large alarms make every genuine hang expensive. So the spaces pass a generous wall
-// alarm (T_ENGINE) to the engine and every call into the library runs under a user-CPU-time alarm (ITIMER_VIRTUAL) whose handler ends
-// the worker exactly like the engine's (_exit(99)); the supervisor then re-runs the case alone, where the remaining wall alarm tells
-// this code that it has 10x (20x in a replay) the CPU budget, before the hang is reported.
-static const double T_ENGINE = 2.0;
-static double g_budget = 0;
-static void onCpuAlarm(int) { _exit(99); }
-static void setTimer(int which, double s) {
-  struct itimerval it; memset(&it, 0, sizeof it);
-  it.it_value.tv_sec = (long)s; it.it_value.tv_usec = (long)((s - (long)s) * 1e6);
-  setitimer(which, &it, nullptr);
-}
-static void beginCase(double cpu) {
-  struct itimerval cur; memset(&cur, 0, sizeof cur); getitimer(ITIMER_REAL, &cur);
-  double r = (double)cur.it_value.tv_sec + 1e-6 * (double)cur.it_value.tv_usec;
-  g_budget = r <= 0 ? 0 : cpu * (r > 15 * T_ENGINE ? 20 : (r > 1.5 * T_ENGINE ? 10 : 1));
-  if (g_budget > 0) signal(SIGVTALRM, onCpuAlarm);
-}
-struct LibCall {   // scope of one library call
-  LibCall() { if (g_budget > 0) setTimer(ITIMER_VIRTUAL, g_budget); }
-  ~LibCall() { if (g_budget > 0) setTimer(ITIMER_VIRTUAL, 0); }
-};
 
 static const char* CLS[3] = {"RowMatrix", "ColMatrix", "LinearMatrix"};
 static std::unique_ptr<Matrix<double>> mk(int cls, size_t r, size_t c) {
@@ -69,6 +40,7 @@ struct Mat {
   std::vector<double> a;     // row-major, exact
   LD trace = 0;              // exact
   bool detKnown = false; LD det = 0;   // exact determinant
+  int cplx = -1;             // spectrum known from the construction: 1 = has a complex pair, 0 = real, -1 = not known
   bool realDistinct = false; // by construction diagonalisable with real, distinct spectrum (eligible for exp/pow when not symmetric)
   std::string desc;
   double at(int i, int j) const { return a[(size_t)i * n + j]; }
@@ -144,9 +116,7 @@ static Dec judge(vf::Case& c, const std::string& part, const Mat& M, int cls) {
   bool sym = M.symmetric();
   if (!M.diagonal()) c.nontrivial();
   c.site("EigenValue::EigenValue");
-  std::unique_ptr<LibCall> guard(new LibCall());
   EigenValue<double> ev(*A);                     // a constructor that does not return is caught by the per-case alarm: hang|EigenValue::EigenValue
-  guard.reset();
   c.site("EigenValue::getV"); const RowMatrix<double>& V = ev.getV();
   c.site("EigenValue::getD"); const RowMatrix<double>& D = ev.getD();
   c.site("EigenValue::getRealEigenValues"); R.d = ev.getRealEigenValues(); R.e = ev.getImagEigenValues();
@@ -189,6 +159,8 @@ static Dec judge(vf::Case& c, const std::string& part, const Mat& M, int cls) {
     LD bound = CRES * n * EPS * nA * nV + slackAt;
     if (!(worst <= bound)) c.fail(part + "|AV=VD-residual", in() + " entry (" + str(wi) + "," + str(wj) + "): |A.V-V.D|=" + vf::num((double)worst) + " bound=" + vf::num((double)bound) + " d=" + vf::vstr(R.d) + " e=" + vf::vstr(R.e));
   }
+  // every column of V is an eigenvector (or half of a conjugate pair), hence not the zero vector (V = 0 would satisfy A.V = V.D vacuously)
+  for (int j = 0; j < n; ++j) { bool zero = true; for (int i = 0; i < n; ++i) if (Vm[(size_t)i * n + j] != 0) zero = false; if (zero) { c.fail(part + "|zero-eigenvector-column", in() + " column " + str(j) + " d=" + vf::vstr(R.d) + " e=" + vf::vstr(R.e)); break; } }
   // --- trace and determinant reproduced by the spectrum: the spectrum is that of A+E, |E|_max <= eta = 64.n.eps.|A|_inf ---
   LD eta = CRES * n * EPS * nA;
   {
@@ -220,7 +192,10 @@ static Dec judge(vf::Case& c, const std::string& part, const Mat& M, int cls) {
     LD bound = CRES * n * EPS + gamL(n + 1) * 2;   // orthonormality of the accumulated Householder/rotation product
     if (!(worst <= bound)) c.fail(part + "|symmetric-V-not-orthonormal", in() + " max|V^T.V-I|=" + vf::num((double)worst) + " bound=" + vf::num((double)bound));
   }
-  c.tag(sym ? "symmetric" : (complexPair ? "nonsymmetric:complex-pairs" : "nonsymmetric:real-spectrum"));
+  // outcome classes: "input:*" come from the reference side (vacuity guards), "result:*" from the returned lists
+  c.tag(sym ? "input:symmetric" : "input:nonsymmetric");
+  if (M.cplx == 1) c.tag("input:complex-spectrum-by-construction");
+  c.tag(complexPair ? "result:complex-pairs" : "result:real-spectrum");
   R.ok = true; R.V = Vm; R.normV = nV;
   return R;
 }
@@ -245,13 +220,19 @@ static void judgeFun(vf::Case& c, const Mat& M, int cA, int cO, bool spd) {
   auto dimsOk = [&](const Matrix<double>& O, const std::string& what) { if ((int)O.getNumberOfRows() != n || (int)O.getNumberOfColumns() != n) { c.fail(what + "|result-dimensions", in()); return false; } return true; };
   std::vector<LD> Am((size_t)n * n); for (size_t i = 0; i < Am.size(); ++i) Am[i] = M.a[i];
   auto mul = [&](const std::vector<LD>& x, const std::vector<LD>& y) { std::vector<LD> z((size_t)n * n, 0); for (int i = 0; i < n; ++i) for (int k = 0; k < n; ++k) for (int j = 0; j < n; ++j) z[(size_t)i * n + j] += x[(size_t)i * n + k] * y[(size_t)k * n + j]; return z; };
-  // exp against the power series (long double, 120 terms; |A|_inf <= 8 so the series rounding is below 120.n.2^-64.e^|A|)
+  // exp against the power series (long double, at most 120 terms; |A|_inf <= 8 so the series rounding is below 120.n.2^-64.e^|A|)
   if (nA <= 8) {
     std::vector<LD> term((size_t)n * n, 0), sum((size_t)n * n, 0); for (int i = 0; i < n; ++i) term[(size_t)i * n + i] = sum[(size_t)i * n + i] = 1;
-    for (int k = 1; k <= 120; ++k) { term = mul(term, Am); for (auto& t : term) t /= k; for (size_t i = 0; i < sum.size(); ++i) sum[i] += term[i]; }
+    std::vector<LD> nxt((size_t)n * n);
+    for (int k = 1; k <= 120; ++k) {   // stops when the term is below 2^-80 (|A|<=8: at most ~65 terms; the remainder is below the last term)
+      LD big = 0;
+      for (int i = 0; i < n; ++i) for (int j = 0; j < n; ++j) { LD t = 0; for (int l = 0; l < n; ++l) t += term[(size_t)i * n + l] * Am[(size_t)l * n + j]; t /= k; nxt[(size_t)i * n + j] = t; big = std::max(big, fabsl(t)); }
+      term.swap(nxt); for (size_t i = 0; i < sum.size(); ++i) sum[i] += term[i];
+      if (big < ldexpl(1.0L, -80) && k > 2 * nA) break;
+    }
     auto O = mk(cO, 1, 1);
     c.site("MatrixTools::exp");
-    try { LibCall g; MatrixTools::exp(*A, *O); } catch (Exception& e) { c.fail("exp|unexpected-exception", in() + " what=" + e.what()); return; }
+    try { MatrixTools::exp(*A, *O); } catch (Exception& e) { c.fail("exp|unexpected-exception", in() + " what=" + e.what()); return; }
     if (dimsOk(*O, "exp")) {
       std::string where; LD w = maxdiff(*O, sum, where);
       LD tol = base * (expl(nA * 1.001L) * nA + expl(nA)) + 120 * n * UL * expl(nA);
@@ -265,7 +246,7 @@ static void judgeFun(vf::Case& c, const Mat& M, int cA, int cO, bool spd) {
     P = mul(P, Am);   // exact: small integers
     auto O = mk(cO, 1, 1);
     c.site("MatrixTools::pow(double)");
-    try { LibCall g; MatrixTools::pow(*A, (double)p, *O); } catch (Exception& e) { c.fail("pow|unexpected-exception", in() + " what=" + e.what()); return; }
+    try { MatrixTools::pow(*A, (double)p, *O); } catch (Exception& e) { c.fail("pow|unexpected-exception", in() + " what=" + e.what()); return; }
     if (!dimsOk(*O, "pow")) continue;
     std::string where; LD w = maxdiff(*O, P, where);
     LD nAe = nA * 1.001L + 1e-300L;
@@ -278,7 +259,7 @@ static void judgeFun(vf::Case& c, const Mat& M, int cA, int cO, bool spd) {
   if (spd) {
     auto O = mk(cO, 1, 1);
     c.site("MatrixTools::pow(double)");
-    try { LibCall g; MatrixTools::pow(*A, 0.5, *O); } catch (Exception& e) { c.fail("pow|unexpected-exception", in() + " what=" + e.what()); return; }
+    try { MatrixTools::pow(*A, 0.5, *O); } catch (Exception& e) { c.fail("pow|unexpected-exception", in() + " what=" + e.what()); return; }
     if (dimsOk(*O, "pow")) {
       std::vector<LD> S((size_t)n * n); for (int i = 0; i < n; ++i) for (int j = 0; j < n; ++j) S[(size_t)i * n + j] = (*O)((size_t)i, (size_t)j);
       std::vector<LD> SS = mul(S, S); LD w = 0; for (size_t i = 0; i < SS.size(); ++i) { LD d = fabsl(SS[i] - Am[i]); if (!(d <= w)) w = d; }
@@ -300,23 +281,25 @@ static std::vector<LL> alpha(const std::string& spec) {
 }
 static std::string alphaName(const std::string& spec) { return spec[0] == 's' ? "[-" + spec.substr(1) + "," + spec.substr(1) + "]" : "{" + spec + "}"; }
 
-// per-library-call CPU budgets: a decomposition costs microseconds (n<=4) to a fraction of a millisecond (n=12, sanitised); 0.02/0.05 s of CPU
-// (0.2/0.5 s when re-run alone) only ever expire on a call that does not return
-static const double T_LATTICE = 0.02, T_STRUCT = 0.05;
+// per-case CPU budgets (the engine's alarm counts CPU time): a case costs microseconds (n<=4) to about a millisecond (n=12, sanitised,
+// including the oracle); 0.03/0.05 s (0.3/0.5 s when re-run alone; several scheduler ticks, the granularity of CPU-time alarms) only ever expire on a call that does not return
+static const double T_LATTICE = 0.03, T_STRUCT = 0.05;
 
-static void lattice(vf::Runner& R, int n, const std::string& spec, bool allClasses) {
+// fixedZeros > 0: the sub-lattice of matrices whose first fixedZeros entries (row-major) are 0, i.e. the indices = 0 mod K^fixedZeros of the
+// full lattice (a stated sub-lattice taken by stride, not a sample)
+static void lattice(vf::Runner& R, int n, const std::string& spec, bool allClasses, int fixedZeros = 0) {
   std::vector<LL> al = alpha(spec); int K = (int)al.size();
-  uint64_t N = 1; for (int i = 0; i < n * n; ++i) N *= (uint64_t)K;
+  uint64_t N = 1; for (int i = fixedZeros; i < n * n; ++i) N *= (uint64_t)K;
   int rep = allClasses ? 3 : 1;
-  std::string name = "eig:int:n" + str(n) + ":" + alphaName(spec) + (allClasses ? ":classes3" : "");
+  std::string name = "eig:int:n" + str(n) + ":" + alphaName(spec) + (fixedZeros ? ":first" + str(fixedZeros) + "entries=0" : "") + (allClasses ? ":classes3" : "");
   R.space(name, N * rep, [=](uint64_t idx, vf::Case& c) {
-    beginCase(T_LATTICE);
     uint64_t m = idx / rep; int cls = allClasses ? (int)(idx % 3) : (int)((idx / 5 + idx) % 3);
-    std::vector<LL> v((size_t)n * n); for (auto& x : v) { x = al[m % K]; m /= K; }
+    std::vector<LL> v((size_t)n * n, 0); for (size_t q = (size_t)fixedZeros; q < v.size(); ++q) { v[q] = al[m % K]; m /= K; }
     Mat M = intMat(n, v, "");
+    if (n == 2) M.cplx = ((v[0] - v[3]) * (v[0] - v[3]) + 4 * v[1] * v[2] < 0) ? 1 : 0;   // sign of the discriminant, exact
     Dec d = judge(c, "eigen", M, cls);
     if (d.ok && idx % 30011 == 11) c.sample("A=" + mstr(n, M.a) + " d=" + vf::vstr(d.d) + " e=" + vf::vstr(d.e));
-  }, T_ENGINE, 256);
+  }, T_LATTICE, 256);
 }
 
 static Mat symFromIndex(int n, uint64_t m, const std::vector<LL>& al) {
@@ -334,11 +317,10 @@ static void symLattice(vf::Runner& R, int n, const std::string& spec) {
   std::vector<LL> al = alpha(spec); int K = (int)al.size();
   uint64_t N = 1; for (int i = 0; i < n * (n + 1) / 2; ++i) N *= (uint64_t)K;
   R.space("eig:sym:n" + str(n) + ":" + alphaName(spec), N, [=](uint64_t idx, vf::Case& c) {
-    beginCase(T_LATTICE);
     Mat M = symFromIndex(n, idx, al);
     Dec d = judge(c, "eigen", M, (int)((idx / 7 + idx) % 3));
     if (d.ok && idx % 20011 == 13) c.sample("symmetric A=" + mstr(n, M.a) + " d=" + vf::vstr(d.d));
-  }, T_ENGINE, 256);
+  }, T_LATTICE, 256);
 }
 // exp / pow over every symmetric member, in all 3x3 (input class, output class) pairs when cube, else rotating
 static void symFun(vf::Runner& R, int n, const std::string& spec, bool cube) {
@@ -346,13 +328,12 @@ static void symFun(vf::Runner& R, int n, const std::string& spec, bool cube) {
   uint64_t N = 1; for (int i = 0; i < n * (n + 1) / 2; ++i) N *= (uint64_t)K;
   int rep = cube ? 9 : 1;
   R.space("fun:sym:n" + str(n) + ":" + alphaName(spec) + (cube ? ":classes3x3" : ""), N * rep, [=](uint64_t idx, vf::Case& c) {
-    beginCase(T_STRUCT);
     uint64_t m = idx / rep; int r = cube ? (int)(idx % 9) : (int)((idx / 11 + idx) % 9);
     Mat M = symFromIndex(n, m, al);
     bool spd = isSPD(M);
     if (spd) c.tag("fun:symmetric-positive-definite");
     judgeFun(c, M, r % 3, r / 3, spd);
-  }, T_ENGINE, 128);
+  }, T_STRUCT, 128);
 }
 
 // ---------- exact constructions ----------
@@ -377,6 +358,7 @@ static std::vector<Block> blockList() {
   for (LL r : {1, -2}) L.push_back({3, {r, 1, 1, 0, r, 1, 0, 0, r}, "T3(" + str(r) + ")"});   // repeated eigenvalue, full upper triangle
   return L;
 }
+static int blocksComplex(const std::vector<Block>& bl) { for (auto& b : bl) if (b.name.compare(0, 3, "rot") == 0) return 1; return 0; }
 static std::vector<LL> directSum(int n, const std::vector<Block>& bl) {
   std::vector<LL> v((size_t)n * n, 0); int o = 0;
   for (auto& b : bl) { for (int i = 0; i < b.size; ++i) for (int j = 0; j < b.size; ++j) v[(size_t)(o + i) * n + o + j] = b.b[(size_t)i * b.size + j]; o += b.size; }
@@ -443,7 +425,7 @@ static std::vector<Mat> buildStructured(bool thorough) {
           Mat M = intMat(n, v, std::string(tr ? "companion-transposed" : "companion") + "(roots " + nm + ")");
           if (M.detKnown && M.det != (LD)prod) { fprintf(stderr, "HARNESS: companion determinant mismatch\n"); abort(); }
           if (M.trace != (LD)sum) { fprintf(stderr, "HARNESS: companion trace mismatch\n"); abort(); }
-          M.det = (LD)prod; M.detKnown = true; M.realDistinct = distinctReal;
+          M.det = (LD)prod; M.detKnown = true; M.realDistinct = distinctReal; M.cplx = 0; for (int q : cur) if (U[q].deg == 2) M.cplx = 1;
           out.push_back(M);
         }
       }
@@ -461,8 +443,9 @@ static std::vector<Mat> buildStructured(bool thorough) {
       if (!thorough && n == 5 && (mi % 4) != 1) continue;   // quick trim: every 4th multiset for n=5
       std::string nm; for (auto& b : ms[mi]) nm += b.name;
       std::vector<LL> base = directSum(n, ms[mi]);
-      for (size_t pi = 0; pi < ps.size(); ++pi) out.push_back(intMat(n, conjPerm(n, base, ps[pi]), "blocks" + nm + ",perm#" + str(pi)));
-      for (size_t si = 0; si < sh.size(); ++si) { std::vector<LL> v = base; for (auto& s : sh[si]) v = conjShear(n, v, s.i, s.j, s.s); out.push_back(intMat(n, v, "blocks" + nm + ",shear#" + str(si))); }
+      int cx = blocksComplex(ms[mi]);
+      for (size_t pi = 0; pi < ps.size(); ++pi) { out.push_back(intMat(n, conjPerm(n, base, ps[pi]), "blocks" + nm + ",perm#" + str(pi))); out.back().cplx = cx; }
+      for (size_t si = 0; si < sh.size(); ++si) { std::vector<LL> v = base; for (auto& s : sh[si]) v = conjShear(n, v, s.i, s.j, s.s); out.push_back(intMat(n, v, "blocks" + nm + ",shear#" + str(si))); out.back().cplx = cx; }
     }
   }
   // (b') n = 6..12: block sequences from fixed recipes, conjugated by the fixed permutation set and the shear set
@@ -473,8 +456,9 @@ static std::vector<Mat> buildStructured(bool thorough) {
       while (left > 0) { const Block& b = BL[k % BL.size()]; if (b.size <= left) { seq.push_back(b); left -= b.size; } k += (size_t)(r % 7) + 1; if (k > 400) { seq.push_back(BL[0]); --left; } }
       std::string nm; for (auto& b : seq) nm += b.name;
       std::vector<LL> base = directSum(n, seq);
-      for (size_t pi = 0; pi < ps.size(); ++pi) out.push_back(intMat(n, conjPerm(n, base, ps[pi]), "blocks" + nm + ",perm#" + str(pi)));
-      for (size_t si = 0; si < sh.size(); ++si) { std::vector<LL> v = base; for (auto& s : sh[si]) v = conjShear(n, v, s.i, s.j, s.s); out.push_back(intMat(n, v, "blocks" + nm + ",shear#" + str(si))); }
+      int cx = blocksComplex(seq);
+      for (size_t pi = 0; pi < ps.size(); ++pi) { out.push_back(intMat(n, conjPerm(n, base, ps[pi]), "blocks" + nm + ",perm#" + str(pi))); out.back().cplx = cx; }
+      for (size_t si = 0; si < sh.size(); ++si) { std::vector<LL> v = base; for (auto& s : sh[si]) v = conjShear(n, v, s.i, s.j, s.s); out.push_back(intMat(n, v, "blocks" + nm + ",shear#" + str(si))); out.back().cplx = cx; }
     }
   }
   // (r) real distinct spectrum by construction: diag(lambda) conjugated by shear sequences (integer, diagonalisable): exp/pow candidates
@@ -521,21 +505,19 @@ static void structured(vf::Runner& R, bool thorough) {
   int rep = thorough ? 3 : 1;   // quick: the storage class rotates with the index; thorough: every class
   std::string name = std::string("eig:structured:n<=12:") + (thorough ? "full" : "quick") + ":" + str(L->size()) + "matrices:" + (thorough ? "classes3" : "class-rotating");
   R.space(name, L->size() * rep, [=](uint64_t idx, vf::Case& c) {
-    beginCase(T_STRUCT);
     const Mat& M = (*L)[idx / rep];
     Dec d = judge(c, "eigen", M, (int)(idx % 3));
     c.tag("family:" + M.desc.substr(0, M.desc.find_first_of("(#")) + (M.n > 6 ? ":n7-12" : ":n<=6"));
     if (d.ok && idx % 9973 == 3) c.sample(M.desc + " n=" + str(M.n) + " d=" + vf::vstr(d.d) + " e=" + vf::vstr(d.e));
-  }, T_ENGINE, 64);
+  }, T_STRUCT, 64);
   // exp/pow on the constructed members with real distinct spectrum (n <= 6), all class pairs
   std::shared_ptr<std::vector<Mat>> F(new std::vector<Mat>());
   for (auto& M : *L) if (M.realDistinct && !M.symmetric() && M.n >= 2 && M.n <= 6 && M.desc.compare(0, 6, "graded") != 0) F->push_back(M);
   R.space(std::string("fun:real-distinct:n<=6:") + str(F->size()) + "matrices:classes3x3", F->size() * 9, [=](uint64_t idx, vf::Case& c) {
-    beginCase(T_STRUCT);
     const Mat& M = (*F)[idx / 9]; int r = (int)(idx % 9);
     judgeFun(c, M, r % 3, r / 3, false);
     c.tag("fun:nonsymmetric-real-distinct");
-  }, T_ENGINE, 64);
+  }, T_STRUCT, 64);
 }
 
 int main(int argc, char** argv) {
@@ -545,24 +527,28 @@ int main(int argc, char** argv) {
   lattice(R, 2, "s3", true);
   symLattice(R, 2, "s3");
   symLattice(R, 3, "-1..1");
-  lattice(R, 3, th ? "-1..2" : "-1..1", false);
+  lattice(R, 3, th ? "s2" : "-1..1", false);
   symLattice(R, 4, "-1..1");
   structured(R, th);
   symFun(R, 2, "s2", true);
   symFun(R, 3, "-1..1", true);
   symFun(R, 4, "-1..1", false);
-  lattice(R, 4, th ? "-1..1" : "01", false);
-  if (th) symLattice(R, 5, "-1..1");
-  R.expectSeen("symmetric");
-  R.expectSeen("nonsymmetric:complex-pairs");
-  R.expectSeen("nonsymmetric:real-spectrum");
+  lattice(R, 4, "01", false);
+  if (th) {
+    symLattice(R, 5, "-1..1");
+    lattice(R, 4, "-1..1", false, 3);
+  }
+  R.expectSeen("input:symmetric");
+  R.expectSeen("input:nonsymmetric");
+  R.expectSeen("input:complex-spectrum-by-construction");
   R.expectSeen("exp:checked");
   R.expectSeen("pow:checked");
   R.expectSeen("sqrt:checked");
   R.expectSeen("fun:nonsymmetric-real-distinct");
-  R.note("every library call runs under a CPU-time alarm of 0.02 s (n<=4 lattices) / 0.05 s (constructions, exp/pow) and a case that trips it is re-run alone with 10x that budget before a hang is reported; normal cost is microseconds; the engine's wall-clock alarm is pushed out to 50x+5 s as a safety net (wall-clock alarms misfire on a loaded machine)");
+  R.note("every case runs under the engine's CPU-time alarm of 0.03 s (n<=4 lattices) / 0.05 s (constructions, exp/pow); a case that trips it is re-run alone with 10x that budget before a hang is reported; normal cost is microseconds to about a millisecond");
   R.note("residual, trace, determinant, orthonormality, exp and pow tolerances all derive from one constant: norm-wise backward error p(n)=64n times eps=2^-52; determinant via the permanent perturbation bound; exp/pow scaled by the condition number of the returned V (computed in long double)");
   R.note("exp/pow are judged only where the statement places them: symmetric members (orthonormal V) and constructed matrices with real distinct spectrum; defective or complex-spectrum matrices are not judged for exp/pow");
+  R.note("the full 4x4 lattice over {-1,0,1} (43M) is not run: on the unchanged tree 11131 of its members never return (probe), each costing a 0.33 s confirmation; the thorough tier runs the stride sub-lattice a11=a12=a13=0 (1.59M matrices, 488 of which never return)");
   R.note("gradings use powers of two so that the graded matrix is exactly similar to its integer base");
   return R.finish();
 }
